@@ -265,6 +265,14 @@ func (q *srcQuery) walk(v ssa.Value, path []int, facts []Fact, alias []ssa.Value
 				q.reaching(al, path, x, facts, addAlias(alias, x), frames, depth)
 				return
 			}
+			// a field of a per-request context object built by a constructor and immutable
+			// afterwards: what the constructor stored there
+			if _, isFA := x.X.(*ssa.FieldAddr); isFA && len(frames) == 0 {
+				if cv, suffix, ok := w.ctorField(x); ok && suffix == "" && cv != ssa.Value(x) {
+					q.walk(cv, path, facts, addAlias(alias, x), frames, where, depth+1)
+					return
+				}
+			}
 		}
 	}
 	if len(path) > 0 {
